@@ -258,6 +258,9 @@ def F55():
         return m.model_spec.get_model_matrix(d.iloc[:0]).shape != (0, m.shape[1])
     except Exception:
         return True
+def F56():
+    d = Formula("b ~ a:b + a").differentiate("a")
+    return exc(lambda: d.get_model_matrix(df, context={})) is not None or exc(lambda: d.differentiate("b")) is not None
 
 ids = sys.argv[1:] or [f"F{i}" for i in range(1, 26)]
 for i in ids:
